@@ -1,0 +1,59 @@
+//go:build verif
+
+package pointer
+
+// Machine-checked contracts (comment-only; build tag `verif`); read by /verif/govc.
+
+// C12: dynamic call edges are only as good as the argument blocks they connect. A
+// call through an interface copies its actual arguments into a params block that
+// invokeConstraint.solve later copies, as ONE block of sizeof(sig.Params()) nodes,
+// onto the formal parameters of every method discovered. Argument k therefore has
+// to land at the position of parameter k in the flattened parameter tuple: the sum
+// of the flattened widths of the parameters before it (poff). A func value or an
+// interface passed after a struct is otherwise lost, and with it the call edge of
+// every call made through it.
+
+//@ property C12
+//@ spec poff(a *analysis, t *types.Tuple, i int) int
+//@ axiom poff_zero: forall a *analysis, t *types.Tuple :: poff(a, t, 0) == 0
+//@ axiom poff_step: forall a *analysis, t *types.Tuple, i int :: i >= 0 ==> poff(a, t, i + 1) == poff(a, t, i) + a.sizeof(t.At(i).Type())
+
+// the flattened width of a type is a function of the type (flatten memoises)
+//@ func analysis.sizeof
+//@   property C12
+//@   assumed
+//@   pure
+
+//@ func analysis.genInvoke
+//@   property C12
+//@   option havoc:*
+//@   ghost k int
+//@   requires a != nil && call != nil && site != nil
+//@   loop 1 invariant cursor_at_offset: 0 <= i && p == (retof(analysis.addNodes, a, _, "invoke.params") + poff(a, call.Signature().Params(), i)) % 4294967296
+//@   loop 1 invariant done_args: 0 <= k && k < i ==> called(copy, a, where(d, d == (retof(analysis.addNodes, a, _, "invoke.params") + poff(a, call.Signature().Params(), k)) % 4294967296), _, where(w, w == a.sizeof(call.Signature().Params().At(k).Type())))
+//@   ensures params_block_laid_out_by_width: call.Value.Type() != old(a.reflectType) && 0 <= k && k < call.Signature().Params().Len() ==> called(copy, a, where(d, d == (retof(analysis.addNodes, a, _, "invoke.params") + poff(a, call.Signature().Params(), k)) % 4294967296), _, where(w, w == a.sizeof(call.Signature().Params().At(k).Type())))
+
+// The same layout for a call through a function value: argument k is stored at offset
+// 1 + poff(k) of the P/R block of every function the value may point to (offset 0 is
+// the function's identity node).
+//@ func analysis.genDynamicCall
+//@   property C12
+//@   option havoc:*
+//@   ghost k int
+//@   requires a != nil && call != nil && site != nil
+//@   loop 1 invariant offset_is_width_sum: offset == (1 + poff(a, call.Signature().Params(), iter(1))) % 4294967296
+//@   loop 1 invariant done_args: 0 <= k && k < iter(1) ==> called(genStore, a, _, _, _, where(o, o == (1 + poff(a, call.Signature().Params(), k)) % 4294967296), where(w, w == a.sizeof(call.Signature().Params().At(k).Type())))
+//@   ensures pblock_laid_out_by_width: 0 <= k && k < len(call.Args) ==> called(genStore, a, _, _, _, where(o, o == (1 + poff(a, call.Signature().Params(), k)) % 4294967296), where(w, w == a.sizeof(call.Signature().Params().At(k).Type())))
+
+// ... and for a static call: the receiver (if any) first, then parameter k at the sum of
+// the widths before it, in the params block of the callee's function object.
+//@ macro recvW() = ite(call.Signature().Recv() != nil, a.sizeof(call.Signature().Recv().Type()), 0)
+//@ func analysis.genStaticCall
+//@   property C12
+//@   option havoc:*
+//@   ghost k int
+//@   requires a != nil && call != nil && site != nil
+//@   loop 1 invariant cursor_at_offset: params == (retof(analysis.funcParams, a, _) + recvW() + poff(a, call.Signature().Params(), iter(1))) % 4294967296
+//@   loop 1 invariant done_args: 0 <= k && k < iter(1) ==> called(copy, a, where(d, d == (retof(analysis.funcParams, a, _) + recvW() + poff(a, call.Signature().Params(), k)) % 4294967296), _, where(w, w == a.sizeof(call.Signature().Params().At(k).Type())))
+//@   ensures params_block_laid_out_by_width: call.StaticCallee() != old(a.runtimeSetFinalizer) && call.StaticCallee() != old(a.reflectValueCall) && 0 <= k && k < call.Signature().Params().Len() && k < len(call.Args) - ite(call.Signature().Recv() != nil, 1, 0) ==> called(copy, a, where(d, d == (retof(analysis.funcParams, a, _) + recvW() + poff(a, call.Signature().Params(), k)) % 4294967296), _, where(w, w == a.sizeof(call.Signature().Params().At(k).Type())))
+//@   ensures receiver_first: call.StaticCallee() != old(a.runtimeSetFinalizer) && call.StaticCallee() != old(a.reflectValueCall) && call.Signature().Recv() != nil ==> called(copy, a, where(d, d == retof(analysis.funcParams, a, _)), _, where(w, w == a.sizeof(call.Signature().Recv().Type())))
